@@ -2,7 +2,10 @@
 """Regenerates MANIFEST.json from manifest_src.json (per-property texts) and checks.tbl."""
 import json, subprocess, sys
 props = [json.loads(l) for l in open('/verif/properties.jsonl')]
-src = json.load(open('/verif/manifest_src.json'))
+import glob, os
+src = json.load(open('/verif/manifest.d/_global.json'))
+src['checks'] = {os.path.basename(f)[:-5]: json.load(open(f)) for f in glob.glob('/verif/manifest.d/C*.json')}
+src['na'] = json.load(open('/verif/manifest.d/_na.json')) if os.path.exists('/verif/manifest.d/_na.json') else {}
 tbl = {}
 for l in open('/verif/checks.tbl'):
     l = l.strip()
